@@ -219,7 +219,7 @@ def c09_literal(state, cfg, t):
 def c09_texts(k, alphabet=None):
     import itertools
 
-    alphabet = alphabet or (list("ab*_`[]()<>&\"'\\#|~!:-+.") + ["é", " x", "«", "\x01"])
+    alphabet = alphabet or (list("ab*_`[]()<>&\"'\\#|~!:-+.") + ["é", " x", "«", "\x01", "\u200b", "\ufeff", "\u2003x", "\xa0"])
     for n in range(1, k + 1):
         for parts in itertools.product(alphabet, repeat=n):
             s = "".join(parts)
